@@ -42,6 +42,10 @@ type waterRunObserver struct {
 	subImpl     []string
 	maxSteps    int
 	days        int
+	sumGW       float64  // Σ groundwater uptake · wdt of the day
+	cSick0, cCap0, cDrai0 float64 // counters at the day-start probe
+	akfStart    int      // crop index at the day-start probe
+	pub         []pubDay // per simulated day: what the public-terms balance needs besides the daily file (c01_public.go)
 }
 
 func profileStorage(g *hermes.GlobalVarsMain, k int) float64 {
@@ -88,6 +92,8 @@ func (o *waterRunObserver) probes() *hermes.VerifProbes {
 			o.sPrev = o.sStart
 			o.fluss0 = g.FLUSS0
 			o.sumWdt, o.sumTP, o.sumQN, o.sumQD, o.nsub = 0, 0, 0, 0, 0
+			o.sumGW, o.akfStart = 0, g.AKF.Index
+			o.cSick0, o.cCap0, o.cDrai0 = g.SICKER, g.CAPSUM, g.DRAISUM
 			o.wdt0 = wdt
 			o.cSick, o.cCap, o.cDrai = g.SICKER, g.CAPSUM, g.DRAISUM
 			o.cInf, o.cTray = g.INFILT, g.TRAY
@@ -102,7 +108,18 @@ func (o *waterRunObserver) probes() *hermes.VerifProbes {
 			}
 			// continuity between days (no water appears or disappears outside the water routine);
 			// excluded: measurement-overwrite days and days on which the groundwater level moved
-			if o.haveLast && !o.measZ[zeit] && g.GRW == o.lastGRW {
+			gwRests := g.GRW == o.lastGRW
+			if _, rests, ok := o.p.GWSeriesLevel(zeit); ok && o.p.Cfg["GroundWaterFrom"] == "gwTimeSeries" {
+				// groundwater time series: whether the table moved is read from the INPUT series — on a stretch
+				// between two records of the same level the table rests and the day must connect exactly
+				gwRests = rests
+				if rests {
+					o.c.Count("run:gw-series:resting-day")
+				} else {
+					o.c.Count("run:gw-series:moving-day")
+				}
+			}
+			if o.haveLast && !o.measZ[zeit] && gwRests {
 				if d := math.Abs(o.sStart - o.lastEnd); !(d <= o.tol(o.sStart)) {
 					o.c.Violate("search", "water-run:day-continuity:"+o.tag, fmt.Sprintf("day %d starts with %.12g cm of water, the previous day ended with %.12g", zeit, o.sStart, o.lastEnd), o.p)
 				}
@@ -167,6 +184,7 @@ func (o *waterRunObserver) probes() *hermes.VerifProbes {
 			o.sumTP += wdt * tp
 			o.sumQN += qn
 			o.sumQD += qd
+			o.sumGW += w.GWAUF * wdt
 			o.sPrev = sAfter
 			// correspondence sample: this call of Water on its real input
 			if o.pending != nil && o.takeDay && len(o.cases) < 6000 {
@@ -208,6 +226,8 @@ func (o *waterRunObserver) probes() *hermes.VerifProbes {
 					zeit, sEnd-o.sStart, o.fluss0, o.sumTP, o.sumQN, o.sumQD, want-o.sStart, sEnd-want, k), o.p)
 			}
 			o.c.Nontrivial(fmt.Sprintf("%s/%d", o.p.Name, zeit))
+			o.pub = append(o.pub, pubDay{Zeit: zeit, SStart: o.sStart, Gwauf: o.sumGW, Dz: g.DZ.Num, N: g.N, Outn: g.OUTN, Nsub: o.nsub,
+				Harvest: g.AKF.Index != o.akfStart, CropAKF: o.akfStart, AutoHarv: g.AUTOHAR, Sick0: o.cSick0, Cap0: o.cCap0, Drai0: o.cDrai0})
 			o.lastEnd, o.haveLast, o.lastGRW = sEnd, true, g.GRW
 			o.pending = nil
 		},
@@ -277,8 +297,19 @@ func waterRunStage(c *vh.Ctx, runs int) {
 	for k := 0; k < runs; k++ {
 		r := c.Rng.Fork()
 		opt, tag := waterOptClass(r, k)
+		if o2, t2, ok := c01Class2(r, k); ok {
+			opt, tag = o2, t2 // second decade: groundwater series / sinus inside the profile, automatic harvest by ripeness
+		}
 		p := proj.Gen(r, fmt.Sprintf("w%d", k), opt)
 		p.Cfg["ETpot"] = fmt.Sprint([]int{2, 3, 4}[k%3])
+		if k%16 == 7 {
+			p.Cfg["ETpot"] = []string{"0", "6"}[(k/16)%2] // no ET method: potential ET stays 0, the balance must still close
+		}
+		if n := p.N(); n < 20 && (n+k)%9 == 0 {
+			p.Cfg["LeachingDepth"] = fmt.Sprint(n + 1 + (k/9)%(20-n)) // below the profile bottom (the shipped default 15 on a short soil)
+		}
+		class2Rows := c01SetupClass2(r, p, tag)
+		p.DailyCols = c01PublicCols(p.N())
 		if tag == "extreme-rain" || tag == "thin-extreme" {
 			steerManySubsteps(r, p)
 		}
@@ -286,6 +317,10 @@ func waterRunStage(c *vh.Ctx, runs int) {
 			p.Cfg["AutoIrrigation"] = "1"
 			if tag == "auto-management" {
 				p.Cfg["AutoSowingHarvest"], p.Cfg["AutoHarvest"], p.Cfg["AutoFertilization"] = "1", "1", "1"
+				p.Til = nil // tillage between moved sowing and harvest dates would reject the run
+				if p.N() <= 20 {
+					p.Cfg["LeachingDepth"] = fmt.Sprint(p.N()) // counters at the profile bottom: the public-terms balance is evaluated (c01_public.go)
+				}
 			}
 		}
 		if err := p.Write(c.Scratch, c.Repo); err != nil {
@@ -300,11 +335,24 @@ func waterRunStage(c *vh.Ctx, runs int) {
 				for _, cc := range proj.Crops {
 					if cc.Code == re.Crop && !seen[cc.Code] {
 						seen[cc.Code] = true
-						entries = append(entries, genAutoEntry(r, cc))
+						e := genAutoEntry(r, cc)
+						if tag == "auto-management" {
+							c01Ripe(&e, cc, 35) // harvest as soon as the crop is ripe (crop.go:182-204), while it still transpires
+						}
+						entries = append(entries, e)
 					}
 				}
 			}
+			if tag == "auto-management" {
+				entries = c01Premise(p, entries, true, true)
+			}
 			if err := p.WriteAutoman(c.Scratch, entries); err != nil {
+				c.Violate("search", "harness:write", err.Error(), nil)
+				return
+			}
+		}
+		if class2Rows != nil {
+			if err := p.WriteAutoman(c.Scratch, class2Rows); err != nil {
 				c.Violate("search", "harness:write", err.Error(), nil)
 				return
 			}
@@ -325,6 +373,7 @@ func waterRunStage(c *vh.Ctx, runs int) {
 			c.Note("run %s ended with error: %v", p.Name, res.Err)
 			continue
 		}
+		o.publicBalance(res)
 		days += o.days
 		if o.maxSteps > maxSteps {
 			maxSteps = o.maxSteps
